@@ -49,6 +49,7 @@ type vcGateCtl struct {
 	parked map[string]*vcParked // by job kind (at most one live job per kind)
 	free   bool                 // pass-through (used to drain an aborted scenario)
 	frozen bool                 // jobs arriving now belong to an abandoned manager: block them for good
+	gen    uint64               // counts every arrival at a gate and every release (to detect changes between two reads)
 	wake   chan struct{}
 }
 
@@ -68,6 +69,7 @@ func vcGate(point string) {
 	}
 	p := &vcParked{phase: phase, ch: make(chan struct{})}
 	c.parked[kind] = p
+	c.gen++
 	c.mu.Unlock()
 	select {
 	case c.wake <- struct{}{}:
@@ -77,13 +79,18 @@ func vcGate(point string) {
 }
 
 func (c *vcGateCtl) snapshot() map[string]string {
+	r, _ := c.snapshotGen()
+	return r
+}
+
+func (c *vcGateCtl) snapshotGen() (map[string]string, uint64) {
 	c.mu.Lock()
 	defer c.mu.Unlock()
 	r := map[string]string{}
 	for k, p := range c.parked {
 		r[k] = p.phase
 	}
-	return r
+	return r, c.gen
 }
 
 func (c *vcGateCtl) release(kind string) bool {
@@ -91,6 +98,7 @@ func (c *vcGateCtl) release(kind string) bool {
 	p, ok := c.parked[kind]
 	if ok {
 		delete(c.parked, kind)
+		c.gen++
 	}
 	c.mu.Unlock()
 	if ok {
@@ -396,6 +404,11 @@ func (r *vcRun) settle() (*vcState, map[string]string, string) {
 	deadline := time.Now().Add(10 * time.Second)
 	files := map[string][]vcFileEntry{} // contents are dumped once per file: keep them over the retries
 	for {
+		// The state is accepted only if no job arrived at or left a gate between a read of the gate controller BEFORE
+		// the dump closure and one AFTER it, and every live job is parked. (Comparing the kinds alone is not enough: the
+		// dump closure can run before the completion closure of a released job while the job of the same kind that
+		// this completion starts has parked by the time the gates are read.)
+		_, gen1 := vcCtl.snapshotGen()
 		st, live := r.dump()
 		if st == nil {
 			return nil, nil, "service loop does not answer (hang)"
@@ -404,8 +417,8 @@ func (r *vcRun) settle() (*vcState, map[string]string, string) {
 			files[k] = v
 		}
 		st.Files = files
-		parked := vcCtl.snapshot()
-		same := len(parked) == len(live)
+		parked, gen2 := vcCtl.snapshotGen()
+		same := gen1 == gen2 && len(parked) == len(live)
 		for k := range live {
 			if _, ok := parked[k]; !ok {
 				same = false
